@@ -130,21 +130,29 @@ Print Assumptions C10_refuted_old.
    The reference structure above (a Default timeline owns a fresh scale; a caller-supplied one
    is shared exactly with the timelines that were given the same object) is what
    Timeline.__init__ does to the option dicts (Render/Options.v, tied to the code by the C11
-   check): a scale object of its own exactly when the caller passed none, and an engine-option
-   dict that is a fresh value built from the caller's (dset never aliases its argument in the
-   model; the tie's oracle checks object identity on the implementation). *)
+   check): scale objects carry an identity in the model (0 = the module-level default object). *)
 From Coq Require Import NArith.
 From Labella Require Import Render.Options Render.OptionsProofs.
 
-Theorem C10_options_own_scale : forall u r, resolve (Some u) = OOk r ->
-  r_own_scale r = match dget u K_scale with None => true | Some _ => false end.
-Proof. exact resolve_own_scale. Qed.
-Print Assumptions C10_options_own_scale.
+Theorem C10_options_scale_identity : forall fresh u r, user_wf u -> resolve fresh (Some u) = OOk r ->
+  r_scale_id r = match dget u K_scale with Some (VScale _ i) => i | _ => fresh end.
+Proof. exact resolve_scale_identity. Qed.
+Print Assumptions C10_options_scale_identity.
 
-(* the merged dict holds, under "scale", the caller's object or a fresh TimeScale; under
+(* in particular the module-level default scale object (identity 0), through which two
+   default-scale timelines influenced each other before ada857e, is never the one a timeline
+   points to (a model of the old constructor, without the fresh TimeScale, fails this) *)
+Theorem C10_options_scale_not_default : forall fresh u r, user_wf u -> resolve fresh (Some u) = OOk r ->
+  fresh <> 0%N -> (forall b i, dget u K_scale = Some (VScale b i) -> i <> 0%N) -> r_scale_id r <> 0%N.
+Proof. exact resolve_scale_not_default. Qed.
+Print Assumptions C10_options_scale_not_default.
+
+(* the merged dict holds, under "scale", the caller's object or the fresh TimeScale; under
    "labella" the caller's engine options plus the direction; every other key is the caller's
-   value or the module default - nothing else enters a timeline's options *)
-Theorem C10_options_only_own_inputs : forall u, user_wf u ->
-  exists d, tl_merge (Some u) = OOk d /\ merged_spec u d.
+   value or the module default - nothing else enters a timeline's options.  (Object identity of
+   the engine-option dict is not expressible in this model: that the dict is a COPY is checked
+   on the implementation by the C11 tie's oracle.) *)
+Theorem C10_options_only_own_inputs : forall fresh u, user_wf u ->
+  exists d, tl_merge fresh (Some u) = OOk d /\ merged_spec fresh u d.
 Proof. exact tl_merge_spec. Qed.
 Print Assumptions C10_options_only_own_inputs.
